@@ -123,3 +123,101 @@ package packets
 //@ requires c != nil
 //@ ensures [C05] result != nil && isfresh(result) && result.Code == code && result.Version == c.Version && result.Properties == nil
 //@ ensures [C05] result.SessionPresent == (!c.CleanStart && sessionReuse && code == 0)
+
+// ---------------------------------------------------------------------------
+// C06 — SUBSCRIBE: the per-topic option byte (MQTT 3.8.3.1) and its decoding, over the trusted model of
+// bytes.Buffer (/verif/trusted/bytes.gvc). subOpts is the option byte of a v5 topic filter.
+//@ spec func subOpts(q byte, nl bool, rap bool, rh byte) byte = q | (nl ? 4 : 0) | (rap ? 8 : 0) | (rh << 4)
+
+// The scratch buffers come from a sync.Pool and are reset: empty and not shared (trusted).
+//@ func getBuffer trusted
+//@ ensures result != nil && isfresh(result) && result.$r == 0 && result.$w == 0 && bufOK(result)
+//@ func putBuffer trusted
+
+// Properties.Pack appends the property block (length prefix + properties) to the buffer (trusted here: not yet
+// under contract; it only appends).
+//@ func (*Properties).Pack trusted
+//@ modifies ghost(bufw.$data), ghost(bufw.$w)
+//@ ensures bufOK(bufw) && bufw.$w >= old(bufw.$w) && (forall i int :: i < old(bufw.$w) ==> bufw.$data[i] == old(bufw.$data[i]))
+
+//@ func writeUint16 mode bv
+//@ props C06
+//@ requires [C06] bufOK(w)
+//@ modifies ghost(w.$data), ghost(w.$w)
+//@ ensures [C06] bufOK(w) && w.$w == old(w.$w) + 2 && w.$data[old(w.$w)] == byte(i >> 8) && w.$data[old(w.$w) + 1] == byte(i)
+//@ ensures [C06] forall k int :: k < old(w.$w) || k >= old(w.$w) + 2 ==> w.$data[k] == old(w.$data[k])
+
+// writeUTF8String: two length bytes (big endian) followed by the bytes of s.
+//@ func writeUTF8String mode bv
+//@ props C06
+//@ requires [C06] bufOK(w)
+//@ modifies ghost(w.$data), ghost(w.$w)
+//@ ensures [C06] bufOK(w) && w.$w == old(w.$w) + 2 + len(s) && w.$data[old(w.$w)] == byte(uint16(len(s)) >> 8) && w.$data[old(w.$w) + 1] == byte(uint16(len(s)))
+//@ ensures [C06] forall k int :: 0 <= k && k < len(s) ==> w.$data[old(w.$w) + 2 + k] == s[k]
+//@ ensures [C06] forall k int :: k < old(w.$w) ==> w.$data[k] == old(w.$data[k])
+
+// Subscribe.Pack: every topic filter is written as its name followed immediately by its option byte — for v5
+// subOpts of the four options of that topic, for v3 the QoS.
+//@ func (*Subscribe).Pack mode bv
+//@ props C06
+//@ requires [C06] p != nil
+//@ loop 1 invariant bufOK(bufw)
+//@ loop 2 invariant bufOK(bufw)
+//@ modifies p.FixHeader, heap
+//@ abstract call FixHeader).Pack pure
+//@ abstract call Buffer).WriteTo pure
+//@ call writeUTF8String#1 assert [C06] string(s) == v.Name
+//@ call Buffer.WriteByte#1 assert [C06] c == subOpts(v.Qos, v.NoLocal, v.RetainAsPublished, v.RetainHandling) && bufw.$w == at(writeUTF8String#1, bufw.$w) + 2 + len(v.Name)
+//@ call writeUTF8String#2 assert [C06] string(s) == t.Name
+//@ call Buffer.WriteByte#2 assert [C06] c == t.Qos && bufw.$w == at(writeUTF8String#2, bufw.$w) + 2 + len(t.Name)
+
+// Decoding the option byte gives the options back (for every QoS and Retain Handling value that fits its field).
+//@ lemma subOptsRoundTrip mode bv : [C06] forall q byte, nl bool, rap bool, rh byte :: q <= 3 && rh <= 3 ==> (subOpts(q, nl, rap, rh) & 3) == q && ((1 & (subOpts(q, nl, rap, rh) >> 2)) > 0) == nl && ((1 & (subOpts(q, nl, rap, rh) >> 3)) > 0) == rap && (3 & (subOpts(q, nl, rap, rh) >> 4)) == rh && (3 & (subOpts(q, nl, rap, rh) >> 6)) == 0
+
+// readUint16 / readUTF8String consume from the buffer: two big-endian bytes; a length-prefixed byte string.
+//@ func readUint16 mode bv
+//@ props C06
+//@ requires [C06] bufOK(r)
+//@ modifies ghost(r.$r)
+//@ ensures [C06] bufOK(r)
+//@ ensures [C06] old(r.$w - r.$r) < 2 ==> result1 != nil && r.$r == old(r.$r)
+//@ ensures [C06] old(r.$w - r.$r) >= 2 ==> result1 == nil && r.$r == old(r.$r) + 2 && result0 == (uint16(r.$data[old(r.$r)]) << 8 | uint16(r.$data[old(r.$r) + 1]))
+
+//@ func (encoding/binary.bigEndian).Uint16 mode bv
+//@ params self, b
+//@ requires len(b) >= 2
+//@ ensures result == (uint16(b[0]) << 8 | uint16(b[1]))
+
+//@ func readUTF8String mode bv
+//@ props C06
+//@ requires [C06] bufOK(r)
+//@ modifies ghost(r.$r)
+//@ ensures [C06] bufOK(r) && r.$r >= old(r.$r)
+//@ ensures [C06] err == nil ==> len(b) == int(uint16(r.$data[old(r.$r)]) << 8 | uint16(r.$data[old(r.$r) + 1])) && r.$r == old(r.$r) + 2 + len(b) && r.$r <= r.$w
+//@ ensures [C06] err == nil ==> (forall k int :: 0 <= k && k < len(b) ==> b[k] == r.$data[old(r.$r) + 2 + k])
+//@ ensures [C06] err != nil ==> b == nil
+
+// Properties.Unpack consumes the property block from the buffer and fills the receiver (trusted here).
+//@ func (*Properties).Unpack trusted
+//@ modifies p.*, ghost(bufr.$r)
+//@ ensures bufOK(bufr) && bufr.$r >= old(bufr.$r)
+
+//@ func ValidV5Topic trusted pure
+
+// Subscribe.Unpack: every accepted topic filter carries exactly the options its option byte encodes: re-encoding
+// the decoded options gives the byte back (v5); the byte is the QoS (v3); QoS is at most 2; the name is the decoded
+// string; the entry appended to Topics is that topic.
+//@ func (*Subscribe).Unpack mode bv
+//@ props C06
+//@ requires [C06] p != nil && p.FixHeader != nil && p.FixHeader.RemainLength >= 0
+//@ modifies heap
+//@ call Buffer.Len#1 assert [C06] (p.Version == 5 ==> subOpts(topic.Qos, topic.NoLocal, topic.RetainAsPublished, topic.RetainHandling) == opts) && (p.Version != 5 ==> topic.Qos == opts && !topic.NoLocal && !topic.RetainAsPublished && topic.RetainHandling == 0) && topic.Qos <= 2 && topic.Name == string(topicFilter)
+//@ call Buffer.Len#1 assert [C06] len(p.Topics) >= 1 && p.Topics[len(p.Topics) - 1].Qos == topic.Qos && p.Topics[len(p.Topics) - 1].NoLocal == topic.NoLocal && p.Topics[len(p.Topics) - 1].RetainAsPublished == topic.RetainAsPublished && p.Topics[len(p.Topics) - 1].RetainHandling == topic.RetainHandling && p.Topics[len(p.Topics) - 1].Name == topic.Name
+//@ loop 1 invariant bufOK(bufr)
+
+// ValidUTF8 only inspects its argument (no effect on the heap); ASCII control characters are rejected.
+//@ func ValidUTF8
+//@ props C06
+//@ ensures [C06] result ==> (forall i int :: 0 <= i && i < len(p) ==> !(p[i] <= 31) && p[i] != 127)
+//@ loop 1 invariant ref(p) == ref(old(p)) && off(p) >= off(old(p)) && off(p) + len(p) == off(old(p)) + len(old(p))
+//@ loop 1 invariant forall i int :: 0 <= i && i < off(p) - off(old(p)) ==> !(old(p)[i] <= 31) && old(p)[i] != 127
